@@ -58,6 +58,13 @@ def generate(rng, index, cfg):
     entry = rng.choice(["nbmerge", "nbmerge", "driver"])
     base, local, remote = nbgen.triple(rng, max_cells=rng.choice([1, 2, 3]), overlap=rng.choice([0.3, 0.7, 1.0]),
                                        minor=rng.choice([4, 5]), kinds=rng.choice([None, ["src"] * 5 + ["out", "md", "ins"], ["src"], ["samelen"], ["samelen", "src"]]))
+    many = rng.random() < cfg.get("p_many_conflicts", 0.012)
+    if many:
+        # a large notebook in which every cell was edited on both sides: 256 separate conflicts (an exit status has 8 bits)
+        def wide(v):
+            return {"cells": [{"cell_type": "code", "id": "c%04d" % i, "metadata": {}, "execution_count": None, "outputs": [],
+                               "source": "x%d = %s\n" % (i, v)} for i in range(256)], "metadata": {}, "nbformat": 4, "nbformat_minor": 5}
+        base, local, remote = wide(0), wide(1), wide(2)
     triple = {"base": base, "local": local, "remote": remote}
     shape = rng.choice(["plain"] * 7 + ["base_null", "base_empty", "local_null", "remote_null", "both_null", "missing", "local_empty",
                                         "remote_empty", "base_garbage", "remote_garbage", "local_bad_utf8", "remote_dir", "base_v3"])
@@ -107,6 +114,12 @@ def generate(rng, index, cfg):
           "line_faults": rng.randint(0, 3), "pathname_exists": rng.random() < 0.8,
           # %L: git's conflict marker size (the conflict-marker-size attribute, +2 per level of a recursive merge)
           "marker": rng.choice(["7", "7", "7", "9", "10", "32", "3"])}
+    if many:
+        sc["shape"], sc["many_conflicts"] = "plain", True
+        sc["triple"] = {"base": base, "local": local, "remote": remote}
+        sc["flags"], sc["decisions"] = [], False
+        sc["line_faults"] = 0
+        return {"scenario": sc, "fault_budget": 2, "pair_budget": 0, "explicit_faults": None}
     return {"scenario": sc, "fault_budget": cfg["fault_budget"], "pair_budget": cfg.get("pair_budget", 0), "explicit_faults": None}
 
 
@@ -318,9 +331,10 @@ def one_pass(sc, plan, line_total=None, count_lines=False, scratch=None):
             sys.stderr = sink
             rc = main(argv)
             normal_return = True
-            status = rc if isinstance(rc, int) else (0 if rc is None else 1)
+            # the console script is `sys.exit(main())`: the parent process sees the low eight bits of an integer
+            status = (rc & 0xFF) if isinstance(rc, int) else (0 if rc is None else 1)
         except SystemExit as e:
-            status = e.code if isinstance(e.code, int) else (0 if e.code is None else 1)
+            status = (e.code & 0xFF) if isinstance(e.code, int) else (0 if e.code is None else 1)
             exc_name = "SystemExit"
         except KeyboardInterrupt:
             status = 130
